@@ -465,6 +465,8 @@ namespace xtl
         int compare_impl(const_pointer s1, size_type count1, const_pointer s2, size_type count2) const noexcept;
         template <class It>
         bool is_inside(It) const noexcept;
+        template <class It>
+        bool is_inside(std::reverse_iterator<It> it) const noexcept;
         bool is_inside(pointer s) const noexcept;
         bool is_inside(const_pointer s) const noexcept;
         void update_null_termination() noexcept;
@@ -924,6 +926,12 @@ namespace xtl
     template <class InputIt>
     inline auto xbasic_fixed_string<CT, N, ST, EP, TR>::assign(InputIt first, InputIt last) -> self_type&
     {
+        if (!std::is_pointer<InputIt>::value && first != last && is_inside(first))
+        {
+            // e.g. reverse iterators over this string's own characters: a forward copy would read what it has overwritten
+            const self_type tmp(first, last);
+            return assign(tmp.cbegin(), tmp.cend());
+        }
         size_type count = error_policy::check_size(static_cast<size_type>(std::distance(first, last)));
         // [first, last) may lie inside this string: copy (forwards) before the new terminator is written
         std::copy(first, last, data());
@@ -2040,6 +2048,14 @@ namespace xtl
     {
         // iterators of another container cannot refer to this string's buffer
         return false;
+    }
+
+    template <class CT, std::size_t N, int ST, template <std::size_t> class EP, class TR>
+    template <class It>
+    inline bool xbasic_fixed_string<CT, N, ST, EP, TR>::is_inside(std::reverse_iterator<It> it) const noexcept
+    {
+        // a reverse iterator over this string's own characters: its base points one past the character it denotes
+        return is_inside(it.base());
     }
 
     template <class CT, std::size_t N, int ST, template <std::size_t> class EP, class TR>
